@@ -858,3 +858,138 @@ def replay_history(fl, FA, vals=None, seed=0, budget=60, **kw):
                 return {"failed": True, "cases": cases, "expected": _outputs(fl, ref), "observed": _outputs(fl, orig),
                         "call": f"engine seed {cfg_seed}: the ORIGINAL engine computes different outputs after its copy was operated/edited: {trace}, edits on the copy {saved}"}
     return {"failed": False, "cases": cases, "distinct": len(seen)}
+
+
+# ---------------------------------------------------------------------------------------------------- weighted defuzzifiers (C10)
+def _grouped_reference(fl, acts, aggregation):
+    """groups keyed by term name in first-occurrence order; degree = left fold of the aggregation operator (plain sum when none) over the degrees"""
+    import numpy as np
+    agg = aggregation or fl.UnboundedSum()
+    order, deg, term = [], {}, {}
+    for (t, d) in acts:
+        d = np.nan_to_num(np.asarray(d, dtype=float), nan=0.0, neginf=0.0, posinf=1.0)
+        if t.name not in deg:
+            order.append(t.name); deg[t.name] = d; term[t.name] = t
+        else:
+            deg[t.name] = np.asarray(agg.compute(deg[t.name], d), dtype=float)
+    return [(term[n], deg[n]) for n in order]
+
+
+def _kind_reference(fl, terms):
+    kinds = set()
+    for t in terms:
+        if isinstance(t, (fl.Constant, fl.Linear, fl.Function)):
+            kinds.add("TakagiSugeno")
+        elif t.is_monotonic():
+            kinds.add("Tsukamoto")
+        else:
+            kinds.add("Automatic")
+    if len(kinds) > 1:
+        return "mixed"
+    return kinds.pop() if kinds else "Automatic"
+
+
+def replay_weighted(fl, FA, vals=None, seed=0, budget=300, exclude_known=True, **kw):
+    import random
+    import numpy as np
+    rng = random.Random(seed)
+    cases, seen = 0, set()
+    eng = fl.Engine("e", input_variables=[fl.InputVariable("A", minimum=0, maximum=1), fl.InputVariable("B", minimum=0, maximum=1)])
+    eng.input_variables[0].value = 0.25; eng.input_variables[1].value = 0.75
+    pools = {
+        "ts": lambda: [fl.Constant("a", 2.0), fl.Constant("b", -3.0), fl.Linear("c", [1.0, 2.0, 0.5], eng), fl.Function.create("d", "A + 2 * B", eng)],
+        "tsukamoto": lambda: [fl.Ramp("a", 0.0, 10.0), fl.Ramp("b", 10.0, 0.0), fl.SShape("c", 0.0, 10.0), fl.ZShape("d", 0.0, 10.0)],
+        "tsukamoto_inf": lambda: [fl.Ramp("a", 0.0, 10.0), fl.Sigmoid("b", 5.0, 1.0), fl.Concave("c", 2.0, 8.0), fl.Arc("d", 0.0, 10.0)],
+        "nonmono": lambda: [fl.Triangle("a", 0.0, 5.0, 10.0), fl.Gaussian("b", 5.0, 2.0), fl.Trapezoid("c", 0.0, 2.0, 6.0, 10.0), fl.Bell("d", 5.0, 2.0, 3.0)],
+        "mixed": lambda: [fl.Constant("a", 2.0), fl.Ramp("b", 0.0, 10.0), fl.Triangle("c", 0.0, 5.0, 10.0), fl.Constant("d", 7.0)],
+    }
+    aggs = [None, fl.UnboundedSum(), fl.Maximum(), fl.AlgebraicSum(), fl.BoundedSum(), fl.EinsteinSum(), fl.NormalizedSum(), fl.DrasticSum(), fl.HamacherSum(), fl.NilpotentMaximum()]
+    for it in range(budget):
+        pname = rng.choice(list(pools))
+        pool = pools[pname]()[:rng.randrange(1, 5)]
+        agg = rng.choice(aggs)
+        batch = rng.random() < 0.3
+        nact = rng.randrange(0, 7)
+        batch = batch and nact > 0
+        acts = []
+        for _ in range(nact):
+            t = rng.choice(pool)
+            d = np.array([rng.choice([0.0, 0.25, 0.5, 1.0, 0.75]) for _ in range(3)]) if batch else rng.choice([0.0, 0.25, 0.5, 1.0, 0.75, 0.1])
+            acts.append((t, d))
+        fuzzy = fl.Aggregated("o", 0.0, 10.0, agg, [fl.Activated(t, d, fl.Minimum()) for t, d in acts])
+        before = [(a.term.name, np.array(a.degree, dtype=float).copy()) for a in fuzzy.terms]
+        for dcls in (fl.WeightedAverage, fl.WeightedSum):
+            for typ in ("Automatic", "TakagiSugeno", "Tsukamoto"):
+                dz = dcls(typ)
+                kind = _kind_reference(fl, [t for t, _ in acts])
+                eff = typ if typ != "Automatic" else kind
+                desc = f"{dcls.__name__}('{typ}') on activations {[(t.name + ':' + type(t).__name__, np.asarray(d).tolist()) for t, d in acts]} aggregation {type(agg).__name__ if agg else None}"
+                if eff == "mixed":
+                    try:
+                        dz.defuzzify(fuzzy)
+                        return {"failed": True, "expected": "TypeError (terms of different kinds, type Automatic)", "observed": "a value", "call": desc, "cases": cases}
+                    except TypeError:
+                        continue
+                groups = _grouped_reference(fl, acts, agg)
+                zs_ok = True
+                ws = np.zeros(3) if batch else np.float64(0.0)
+                wt = np.zeros(3) if batch else np.float64(0.0)
+                if not acts:
+                    ws = ws + np.nan
+                try:
+                    for (t, w) in groups:
+                        z = np.asarray(t.tsukamoto(w) if eff == "Tsukamoto" else t.membership(w), dtype=float)
+                        ws = ws + w * z; wt = wt + w
+                except RuntimeError:        # explicit Tsukamoto on a term that refuses: not a case of this property
+                    continue
+                exp = np.asarray(ws / wt if dcls is fl.WeightedAverage else (ws / wt) * wt, dtype=float)
+                if exclude_known and pname == "tsukamoto_inf" and eff == "Tsukamoto" and any(np.any(np.asarray(w) == 0) for _, w in groups):
+                    continue        # region of known finding C10-1 (tsukamoto(0) of Sigmoid/Concave is infinite: 0 * inf = NaN)
+                try:
+                    got = np.asarray(dz.defuzzify(fuzzy), dtype=float)
+                    got2 = np.asarray(dz.defuzzify(fuzzy), dtype=float)      # repeated call: same value (nothing cached or mutated)
+                except Exception as ex:  # noqa
+                    return {"failed": True, "expected": np.atleast_1d(exp).tolist(), "observed": f"{type(ex).__name__}: {ex}", "call": desc, "cases": cases}
+                cases += 1
+                seen.add((pname, typ, dcls.__name__, type(agg).__name__, nact, batch))
+                e1, g1, g2 = np.atleast_1d(exp), np.atleast_1d(got), np.atleast_1d(got2)
+                ok = e1.shape == g1.shape == g2.shape and all(FA.same(a, b, rel=1e-9, abs_=1e-9) for a, b in zip(e1, g1)) and all(FA.same(a, b) for a, b in zip(g1, g2))
+                after = [(a.term.name, np.array(a.degree, dtype=float)) for a in fuzzy.terms]
+                same_fuzzy = len(before) == len(after) and all(x[0] == y[0] and np.array_equal(x[1], y[1]) for x, y in zip(before, after))
+                if not ok or not same_fuzzy:
+                    j = lambda a: [None if x != x else float(x) for x in np.atleast_1d(a)]
+                    return {"failed": True, "expected": {"value": j(exp), "fuzzy output unchanged": True}, "observed": {"first": j(got), "second": j(got2), "fuzzy output unchanged": same_fuzzy},
+                            "call": desc, "cases": cases}
+                if dz.type.name != typ:
+                    return {"failed": True, "expected": f"type stays {typ}", "observed": dz.type.name, "call": desc + " (the configured type changed)", "cases": cases}
+        # Aggregated.activation_degree(term) = degree of the term's group (0 when absent)
+        groups = dict((t.name, w) for t, w in _grouped_reference(fl, acts, agg))
+        for t in pool:
+            got = np.asarray(fuzzy.activation_degree(t), dtype=float)
+            exp = np.asarray(groups.get(t.name, 0.0), dtype=float)
+            if got.shape != exp.shape and got.size != exp.size or not all(FA.same(a, b) for a, b in zip(np.atleast_1d(got), np.atleast_1d(exp))):
+                return {"failed": True, "expected": np.atleast_1d(exp).tolist(), "observed": np.atleast_1d(got).tolist(), "cases": cases,
+                        "call": f"Aggregated.activation_degree({t.name}) on {[(t_.name, np.asarray(d).tolist()) for t_, d in acts]} aggregation {type(agg).__name__ if agg else None}"}
+    return {"failed": False, "cases": cases, "distinct": len(seen)}
+
+
+def replay_zero_degree(fl, FA, cls, vals=None, **kw):
+    """an activation with degree 0 never changes the result: needs tsukamoto(0) finite"""
+    import numpy as np
+    from contracts import terms as CT
+    t = CT.TERMS[cls]
+    defaults = {"Arc": dict(start=0.0, end=10.0), "Concave": dict(inflection=2.0, end=8.0), "Ramp": dict(start=0.0, end=10.0), "Sigmoid": dict(inflection=5.0, slope=1.0),
+                "SShape": dict(start=0.0, end=10.0), "ZShape": dict(start=0.0, end=10.0)}[cls]
+    kwv = dict(defaults, height=1.0)
+    if vals and all(k in vals and vals[k] == vals[k] for k in t.fields()):
+        cand = {k: float(vals[k]) for k in t.fields()}
+        if bool(t.valid(FA, {k: np.float64(v) for k, v in cand.items()})):
+            kwv = cand
+    term = getattr(fl, cls)("z", **kwv)
+    z0 = np.float64(term.tsukamoto(0.0))
+    other = fl.Ramp("r", 0.0, 10.0)
+    base = fl.Aggregated("o", 0.0, 10.0, None, [fl.Activated(other, 0.5)])
+    plus = fl.Aggregated("o", 0.0, 10.0, None, [fl.Activated(other, 0.5), fl.Activated(term, 0.0)])
+    a = np.float64(fl.WeightedAverage("Tsukamoto").defuzzify(base)); b = np.float64(fl.WeightedAverage("Tsukamoto").defuzzify(plus))
+    return {"failed": not (np.isfinite(z0) and FA.same(a, b)), "expected": {"tsukamoto(0)": "finite", "result with the degree-0 activation": float(a)},
+            "observed": {"tsukamoto(0)": float(z0), "result": None if b != b else float(b)}, "call": f"{cls}({kwv}): WeightedAverage('Tsukamoto') on [Ramp@0.5] vs [Ramp@0.5, {cls}@0.0]"}
